@@ -108,12 +108,18 @@ def r1(chk):
         if q["k"] == "PIdent":
             pname = q["name"]
 
+    # the pending-repeat map: the local of get_data_type_attrs that is initialised as a HashMap (whatever it is called)
+    map_names = [st["pat"].get("name") or (st["pat"].get("pat") or {}).get("name") for st in walk(fi.body)
+                 if st["k"] == "Let" and "HashMap" in (render(st.get("init")) if st.get("init") else "") + str(st["pat"].get("ty", ""))]
+    map_names = [m_ for m_ in map_names if m_] or ["trait_attrs_to_repeat"]
+
     def mk():
         return Evaluator(repo, IMPL_FILES, opaque={"merge"})
 
     def run(ev):
-        env = {pname: SymObj(pname, ("named", "TraitAttr")), "trait_attrs_to_repeat": SymObj("M", ("named", "HashMap")),
-               "attrs": SymObj("attrs", ("named", "DataTypeAttrs"))}
+        env = {pname: SymObj(pname, ("named", "TraitAttr")), "attrs": SymObj("attrs", ("named", "DataTypeAttrs"))}
+        for mname in map_names:
+            env[mname] = SymObj("M", ("named", "HashMap"))
         return ev.eval(arm["body"], env)
     leaves = explore(mk, run)
     chk.unit("transition_leaves", len(leaves))
@@ -122,7 +128,7 @@ def r1(chk):
         stop = d.get(f"{pname}.core.stop_repeat")
         rep = d.get(f"{pname}.core.repeat")
         rep = (rep == "Some") if isinstance(rep, str) else rep
-        got = [a for a in d if a.startswith("M.get_mut(") or a.startswith("M.get(")]
+        got = [a for a in d if a.startswith("M.get_mut(") or a.startswith("M.get(") or a.startswith("M.contains_key(")]
         opened = None
         if got:
             gv = d.get(got[0])
@@ -132,8 +138,9 @@ def r1(chk):
         for e in effs:
             if e[0] == "M" and e[1] == "remove":
                 names.append("reset")
-            elif e[0] == "M" and e[1] in ("get_mut", "get"):
-                names.append("lookup")
+            elif e[0] == "M" and e[1] in ("get_mut", "get", "contains_key", "entry"):
+                if not names or names[-1] != "lookup":
+                    names.append("lookup")
             elif e[0] == "M" and e[1] == "insert":
                 names.append("open")
             elif e[0] == "summary" and ".merge(" in e[1]:
@@ -273,8 +280,12 @@ def r4(chk):
     chk.expect("R4", "Struct::from_syn/fresh-context", a0 == "&mutDefault::default()", AST, fs.line, "struct fields must start with no open repeat block", found=a0)
     fv = repo.fn(AST, "multiple_from_syn", impl="Variant")
     ctx_init = [n for n in walk(fv.body) if n["k"] == "Struct" and n["path"] == "Context"]
-    ok = len(ctx_init) == 1 and all(render(f["expr"]) == "None" for f in ctx_init[0]["fields"]) and len(ctx_init[0]["fields"]) == 2
-    chk.expect("R4", "Variant::multiple_from_syn/fresh-context", ok, AST, fv.line, "enum starts with no open repeat block", found=render(ctx_init[0]) if ctx_init else None)
+    lit_ok = len(ctx_init) == 1 and all(render(f["expr"]) == "None" for f in ctx_init[0]["fields"]) and len(ctx_init[0]["fields"]) == 2
+    lit_bad = len(ctx_init) >= 1 and any(render(f["expr"]).startswith("Some") for c_ in ctx_init for f in c_["fields"])
+    dflt = [c for c in calls(fv.body) if render(c["func"]).replace(" ", "") in ("Context::default", "Default::default")]
+    derives_default = any(it["k"] == "Struct" and it["name"] == "Context" and any(a["path"] == "derive" and "Default" in a["tokens"] for a in it["attrs"]) for it, _i, _c in repo.items(AST))
+    chk.shape("R4", "Variant::multiple_from_syn/fresh-context", lit_ok or (not ctx_init and len(dflt) >= 1 and derives_default), lit_bad, AST, fv.line,
+              what="enum starts with no open repeat block", found=render(ctx_init[0]) if ctx_init else [render(c)[:40] for c in dflt])
 
 
 def r5(chk):
@@ -291,9 +302,12 @@ def r5(chk):
     dup = {str(k): sorted(v) for k, v in seen.items() if len(v) > 1}
     chk.expect("R5", "repeat-key-injective", not dup and len(seen) == 24, ATTR, fi.line, "two instruction names share a repeat key: `repeat` on one would leak onto the other", found=dup or len(seen))
     f2 = repo.fn(ATTR, "get_data_type_attrs")
-    keys = [n for n in walk(f2.body) if n["k"] == "Let" and n["pat"].get("name") == "k"]
-    ok = len(keys) == 1 and render(keys[0]["init"]).replace(" ", "") == "(trait_attr.applicable_to,trait_attr.fallible)"
-    chk.expect("R5", "repeat-key-definition", ok, ATTR, f2.line, "repeat map key is not (applicable_to, fallible)", found=render(keys[0]["init"]) if keys else None)
+    # the key of the pending-repeat map: the tuple (X.applicable_to, X.fallible), wherever in attr.rs it is built
+    tuples = [n for fn_ in repo.fns(ATTR) for n in walk(fn_.body) if n["k"] == "Tuple" and any(render(e_).replace(" ", "").endswith(".applicable_to") for e_ in n["elems"])]
+    good = [t for t in tuples if len(t["elems"]) == 2 and re.fullmatch(r"(\w+)\.applicable_to", render(t["elems"][0]).replace(" ", "")) and
+            render(t["elems"][1]).replace(" ", "") == render(t["elems"][0]).replace(" ", "").replace(".applicable_to", ".fallible")]
+    chk.shape("R5", "repeat-key-definition", bool(tuples) and len(good) == len(tuples), bool(tuples) and len(good) < len(tuples), ATTR, f2.line,
+              what="repeat map key is not (applicable_to, fallible) of one instruction", found=[render(t)[:60] for t in tuples])
 
 
 def run(chk):
